@@ -250,3 +250,113 @@ Section Points.
                   ap_45_good.
   Qed.
 End Points.
+
+(* ------------------------------------------------------------------ *)
+(* a collection at an allocation point                                 *)
+(* ------------------------------------------------------------------ *)
+(* the collector's heap at an allocation point: the abstraction of the VM heap (VmGcLink.vm_abs) in which the objects
+   under a live ObjectGcGuard carry the marker Protected *)
+Definition guard_obj (g : list N) (a : N) (o : Gc.obj) : Gc.obj :=
+  if bool_decide (a ∈ g) then Gc.Obj Protected (kids o) else o.
+Definition vm_abs_g (F : fops) (s : state) (g : list N) : gmap N Gc.obj :=
+  map_imap (fun a o => Some (guard_obj g a o)) (vm_abs F s).
+
+Lemma vm_abs_g_lookup F s g a : vm_abs_g F s g !! a = guard_obj g a <$> (vm_abs F s !! a).
+Proof. unfold vm_abs_g. rewrite map_lookup_imap. destruct (vm_abs F s !! a); reflexivity. Qed.
+
+Lemma vm_abs_g_shape F s g : same_shape (vm_abs F s) (vm_abs_g F s g).
+Proof.
+  intros a. rewrite vm_abs_g_lookup. destruct (vm_abs F s !! a) as [o|] eqn:E; cbn; [|exact I].
+  split.
+  - unfold guard_obj. destruct (bool_decide (a ∈ g)); reflexivity.
+  - intros Hw. unfold is_white in Hw. rewrite (vm_abs_white _ _ _ _ E) in Hw. discriminate.
+Qed.
+
+Lemma vm_abs_g_no_gray F s g : no_gray (vm_abs_g F s g).
+Proof.
+  intros a o Ha. rewrite vm_abs_g_lookup in Ha. destruct (vm_abs F s !! a) as [o0|] eqn:E; [|discriminate].
+  cbn in Ha. injection Ha as <-. unfold guard_obj. destruct (bool_decide (a ∈ g)); cbn; [discriminate|].
+  rewrite (vm_abs_white _ _ _ _ E). discriminate.
+Qed.
+
+Lemma vm_abs_g_prot F s g a : In a g -> aok (hl s) a -> a ∈ protected_of (vm_abs_g F s g).
+Proof.
+  intros Hg Ha. apply elem_of_protected_of. apply vm_abs_dom with (F := F) in Ha. destruct Ha as [o Ho].
+  exists (guard_obj g a o). split; [rewrite vm_abs_g_lookup, Ho; reflexivity|].
+  unfold guard_obj. rewrite bool_decide_eq_true_2 by (apply elem_of_list_In; exact Hg). reflexivity.
+Qed.
+
+(* A collection started by an allocation at a point where the state is closed and the guards are objects of the heap
+   terminates, and every object reachable from the VM roots or from a guarded object stays in place with the same
+   references; the heap it leaves is closed. *)
+Theorem collection_with_guards F s g : state_closed s -> Forall (aok (hl s)) g ->
+  exists h', gc (vm_abs_g F s g) (vm_roots s) = Some h' /\
+    (forall a, reach (vm_abs F s) (vm_roots s ++ g) a ->
+       exists o o', hget (st_heap s) a = Some o /\ h' !! a = Some o' /\ kids o' = vm_kids F s o) /\
+    closed h' /\ no_gray h'.
+Proof.
+  intros Hs Hg. pose proof (vm_abs_g_shape F s g) as Hsh.
+  pose proof (closed_shape _ _ (vm_abs_closed F s Hs) Hsh) as Hcl. pose proof (vm_abs_g_no_gray F s g) as Hng.
+  destruct (gc_spec (vm_abs_g F s g) (vm_roots s) Hcl Hng) as (h' & Hgc & Hdom & Hobj & Hng').
+  exists h'. split; [exact Hgc|]. split; [|split; [eapply gc_closed; eauto|exact Hng']].
+  intros a Hr. rewrite Forall_forall in Hg.
+  assert (Hr' : reach (vm_abs_g F s g) (protected_of (vm_abs_g F s g) ++ vm_roots s) a).
+  { eapply reach_mono; [|eapply reach_shape; [exact Hsh|exact Hr]].
+    intros x Hx. apply elem_of_app in Hx. apply elem_of_app. destruct Hx as [Hx|Hx]; [right; exact Hx|left].
+    apply vm_abs_g_prot; [apply elem_of_list_In; exact Hx|apply Hg; exact Hx]. }
+  assert (Hin : is_Some (vm_abs_g F s g !! a)).
+  { eapply reach_in_heap; [exact Hcl| |eapply reach_shape; [exact Hsh|exact Hr]].
+    intros r Hrt. rewrite vm_abs_g_lookup. apply fmap_is_Some. apply vm_abs_dom.
+    apply elem_of_app in Hrt. destruct Hrt as [Hrt|Hrt].
+    - apply elem_of_list_In in Hrt. apply vm_roots_ok; assumption.
+    - apply Hg. exact Hrt. }
+  destruct (proj2 (Hdom a) (conj Hin Hr')) as [o' Ho'].
+  destruct (Hobj a o' Ho') as (o & Ho & Hk & _).
+  rewrite vm_abs_g_lookup, vm_abs_lookup in Ho. destruct (hget (st_heap s) a) as [ob|] eqn:E; [|discriminate].
+  cbn in Ho. injection Ho as <-. exists ob, o'. split; [reflexivity|]. split; [exact Ho'|]. rewrite Hk.
+  unfold guard_obj. destruct (bool_decide (a ∈ g)); reflexivity.
+Qed.
+
+(* ... in particular at every allocation point of the next instruction: what the rest of the instruction uses
+   survives the collection unchanged *)
+Theorem collection_at_alloc_point F P ip0 s p :
+  state_closed s -> In p (alloc_points F P ip0 s) ->
+  (forall a, In a (ap_assumed p) -> reach (vm_abs F (ap_state p)) (ap_roots p) a) ->
+  exists h', gc (vm_abs_g F (ap_state p) (ap_guards p)) (vm_roots (ap_state p)) = Some h' /\
+    (forall a, In a (ap_uses p) ->
+       exists o o', hget (st_heap (ap_state p)) a = Some o /\ h' !! a = Some o' /\
+                    kids o' = vm_kids F (ap_state p) o) /\
+    closed h' /\ no_gray h'.
+Proof.
+  intros Hs Hp Ha. destruct (alloc_point_temporaries_rooted F P ip0 s p Hs Hp) as (Hc & Hg & Hu).
+  destruct (collection_with_guards F _ _ Hc Hg) as (h' & Hgc & Hk & Hcl & Hng).
+  exists h'. split; [exact Hgc|]. split; [|split; assumption].
+  intros a Hin. apply Hk. apply Hu; assumption.
+Qed.
+
+(* ---- RegisterUpvalue after CopyLast (what the compiler emits): the popped closure is still in the slot below ---- *)
+Lemma register_after_copylast F P ip s ca s' p :
+  slast s = VObj ca -> spush s (VObj ca) = Some s' -> In p (ap_45 P ip s') ->
+  forall a, In a (ap_assumed p) -> reach (vm_abs F (ap_state p)) (ap_roots p) a.
+Proof.
+  intros Hl Hpush. unfold ap_45. destruct (read_le (p_code P) ip 1) as [index|]; [|intros []].
+  destruct (read_le (p_code P) (ip + 1) 1) as [is_local|]; [|intros []].
+  destruct (spop s') as [s1 cv] eqn:Ep.
+  assert (H1 : cv = VObj ca /\ slast s1 = VObj ca).
+  { unfold spush, vs_push in Hpush. unfold slast, vs_last in Hl.
+    destruct (S (vcount (st_stack s)) <? length (vdata (st_stack s))) eqn:Ec; [|discriminate].
+    injection Hpush as <-. apply Nat.ltb_lt in Ec.
+    destruct (0 <? vcount (st_stack s)) eqn:E0; [|discriminate]. apply Nat.ltb_lt in E0.
+    unfold spop, vs_pop in Ep. cbn [st_stack set_stack vcount vdata] in Ep. cbn [Nat.eqb] in Ep.
+    replace (S (vcount (st_stack s)) - 1) with (vcount (st_stack s)) in Ep by lia.
+    injection Ep as <- <-. split.
+    - apply ListUtil.nth_upd_same. lia.
+    - unfold slast, vs_last. cbn [st_stack set_stack vcount vdata]. rewrite (proj2 (Nat.ltb_lt _ _) E0).
+      rewrite !ListUtil.nth_upd_other by lia. exact Hl. }
+  destruct H1 as [-> Hl1]. destruct (hget (st_heap s1) ca) as [[]|]; try nil_case.
+  destruct (negb (is_local =? 0)%N); [|intros []]. destruct (top_offset s1) as [off|]; [|intros []].
+  destruct (scount s1 <=? off + N.to_nat index); [intros []|].
+  destruct (walk_open _ _ _ _ _) as [prev cur|]; [|intros []].
+  match goal with |- In p (if ?b then _ else _) -> _ => destruct b end; [intros []|]. intros [<-|[]].
+  unfold ap_roots. cbn [ap_state ap_guards ap_assumed]. intros a [<-|[]]. apply R_root. apply slast_root. exact Hl1.
+Qed.
